@@ -336,6 +336,62 @@ def responses (r : Bool × Option Outcome) (isNotify : Bool) (b : Beh) : List Co
   | none => if isNotify then [] else [.f]            -- "no method" through Response (dropped for a notify)
   | some o => completionsG b.bad o (!isNotify) b
 
+/-! ## registry (apimapper/registry/api_registry.go) under concurrency
+
+`AddCollection` runs lookup and insert inside one write-locked critical section
+(structural fact regenerated from the source on every run, `Gen/C13Registry`),
+so concurrent callers are a sequence of atomic `Registry.add` steps in some
+order (sync.RWMutex gives mutual exclusion: trusted base). -/
+
+/-- name → identity of the collection object (identities are allocation numbers) -/
+abbrev Registry := List (Bytes × Nat)
+
+/-- `AddCollection` as one atomic step: the existing collection, else a fresh one that is stored -/
+def Registry.add (r : Registry) (name : Bytes) : Registry × Nat :=
+  match lookup r name with
+  | some c => (r, c)
+  | none => ((name, r.length) :: r, r.length)
+
+/-- any number of further `AddCollection` calls (any names, any order) -/
+def Registry.addMany (r : Registry) (names : List Bytes) : Registry := names.foldl (fun r n => (r.add n).1) r
+
+/-- the non-atomic variant (lookup under the read lock, insert under the write lock
+WITHOUT looking again): thread `t` does `look t` then, on a miss, `ins t` -/
+inductive RStep | look (t : Nat) | ins (t : Nat)
+  deriving DecidableEq, Repr
+
+structure SplitSt where
+  reg : Registry := []
+  fresh : Nat := 0
+  got : List (Nat × Nat) := []        -- thread → collection it returns
+  deriving DecidableEq, Repr
+
+def splitStep (name : Bytes) (s : SplitSt) : RStep → SplitSt
+  | .look t =>
+    match lookup s.reg name with
+    | some c => { s with got := (t, c) :: s.got }
+    | none => s
+  | .ins t =>
+    if s.got.any (·.1 == t) then s
+    else { reg := (name, s.fresh) :: s.reg, fresh := s.fresh + 1, got := (t, s.fresh) :: s.got }
+
+/-- events of one execution path through `AddCollection` (emitted by harness/c13/extract) -/
+inductive REv | lockW | unlockW | deferUnlockW | lockR | unlockR | deferUnlockR | read | write | ret
+  deriving DecidableEq, Repr
+
+/-- along one path: every insert into the map happens while the write lock is held
+and after a lookup made since that lock was taken.  State = (write lock held, looked up since) -/
+def pathAtomic : List REv → Bool × Bool → Bool
+  | [], _ => true
+  | .lockW :: r, _ => pathAtomic r (true, false)
+  | .unlockW :: r, _ => pathAtomic r (false, false)
+  | .read :: r, (w, rd) => pathAtomic r (w, rd || w)
+  | .write :: r, (w, rd) => w && rd && pathAtomic r (w, rd)
+  | _ :: r, st => pathAtomic r st
+
+def addCollectionAtomic (paths : List (List REv)) : Bool :=
+  paths.all (fun p => pathAtomic p (false, false)) && paths.any (fun p => p.contains .write)
+
 /-! ## the route table as the property words it (used by the spec monitor; `Props/C13.route_table_eq_spec`) -/
 
 /-- the last element satisfying `p` -/
